@@ -80,11 +80,30 @@ def run(ctx) -> None:
             ctx.require(loops, f"{fq}: accumulating store is not inside a loop")
             it = shapes.resolve_alias(fn, loops[-1].iter) if isinstance(loops[-1], ast.For) else None
             rtl = False
+            idx_var = None
+            descending_index = False
+            if isinstance(loops[-1], ast.While):
+                # `i = len(L) - 1; while i >= 0: x = L[i]; i -= 1; ...`  walks L backwards
+                cs_w = shapes.compare_shape(loops[-1].test)
+                if cs_w and isinstance(cs_w[1], ast.Name) and isinstance(cs_w[2], ast.Constant) and ((cs_w[0] == ">=" and cs_w[2].value == 0) or (cs_w[0] == ">" and cs_w[2].value == -1)):
+                    idx_var = cs_w[1].id
+                    dec = [n_ for n_ in ast.walk(loops[-1]) if isinstance(n_, ast.AugAssign) and unparse(n_.target) == idx_var and isinstance(n_.op, ast.Sub)
+                           and isinstance(n_.value, ast.Constant) and n_.value.value == 1]
+                    inc = [n_ for n_ in ast.walk(loops[-1]) if isinstance(n_, (ast.AugAssign, ast.Assign)) and n_ not in dec
+                           and any(isinstance(t_, ast.Name) and t_.id == idx_var for t_ in ([n_.target] if isinstance(n_, ast.AugAssign) else n_.targets))]
+                    start = [v_ for _s, v_ in shapes.local_defs(fn, idx_var) if v_ is not None and not isinstance(_s, ast.AugAssign)]
+                    subs = [x_ for x_ in ast.walk(loops[-1]) if isinstance(x_, ast.Subscript) and unparse(x_.slice) == idx_var and isinstance(x_.value, ast.Name)]
+                    if len(dec) == 1 and not inc and len(start) == 1 and subs and len({x_.value.id for x_ in subs}) == 1 \
+                            and unparse(start[0]).replace(" ", "") == f"len({subs[0].value.id})-1":
+                        it = shapes.resolve_alias(fn, subs[0].value)
+                        descending_index = True
             if isinstance(it, ast.Call):
                 f = unparse(it.func)
                 if f == "sorted":
                     rev = [kw for kw in it.keywords if kw.arg == "reverse"]
                     rtl = bool(rev) and isinstance(rev[0].value, ast.Constant) and rev[0].value.value is True
+                    if descending_index:
+                        rtl = not rtl          # an ascending list walked from its end
                     key = [kw.value for kw in it.keywords if kw.arg == "key"]
                     if key:
                         # a key that looks at the line number only keeps matches of one line in match order (stable sort)
@@ -95,12 +114,12 @@ def run(ctx) -> None:
                             (isinstance(x, ast.Attribute) and x.attr == "span") for x in ast.walk(k.body)) or (isinstance(k, ast.Lambda) and unparse(k.body) == k.args.args[0].arg)
                         rtl = rtl and uses_span
                 elif f == "reversed":
-                    rtl = True
-            shifted = any(isinstance(n, ast.AugAssign) for n in ast.walk(loops[-1]))
+                    rtl = not descending_index
+            shifted = any(isinstance(n, ast.AugAssign) and unparse(n.target) != idx_var for n in ast.walk(loops[-1]))
             ctx.check("R1", rtl or shifted,
                       f"{fq}: spans are applied right-to-left (or shifted by an offset) on the accumulated line",
                       f"{fq}: spans of the old line are applied to an already modified line in match order",
-                      f"the loop at L{loops[-1].lineno} iterates `{unparse(loops[-1].iter)[:60]}`; after the first replacement on a line the spans "
+                      f"the loop at L{loops[-1].lineno} iterates `{unparse(loops[-1].iter if isinstance(loops[-1], ast.For) else loops[-1].test)[:60]}`; after the first replacement on a line the spans "
                       f"of later matches on that line are stale unless processed right-to-left or shifted",
                       loc=fn.loc(loops[-1]))
             # the replaced span must be the match's own span
